@@ -7,14 +7,6 @@ set_option linter.unusedSectionVars false
 namespace PCV
 variable {F : Type} [Field F] [DecidableEq F]
 
-theorem fpow_add (x : F) (a b : Nat) : fpow x (a + b) = fpow x a * fpow x b := by
-  induction a with
-  | zero => simp [fpow]
-  | succ a ih => rw [Nat.succ_add]; simp only [fpow, ih]; ring
-
-theorem fpow_succ' (x : F) (a : Nat) : fpow x (a + 1) = fpow x a * x := by
-  rw [fpow_add]; simp [fpow]
-
 theorem powers_drop (g β : F) (n k : Nat) :
     (powers g β n).drop k = powers (g * fpow β k) β (n - k) := by
   induction k generalizing g n with
